@@ -80,6 +80,7 @@ PROPS = {
             fam("conv", g(gen.fam_conv), 300, 4000, view="values", rule="distinct (batch, depth, rows, cols, count, frows, fcols, sr, sc); refusals"),
             fam("conv-float", g(gen.fam_conv, mode="float"), 60, 800, mode="float", view="values", rule="as above on arbitrary doubles"),
             fam("sizes", g(gen.fam_sizes, part="conv"), 0, 0, view="values", rule="lengths 5..65 that are not small powers of two (loop remainders): image rows / columns of awkward length, non-square window grids, rectangular filters and strides"),
+            fam("conv-large", g(gen.fam_conv_large), 0, 0, view="values", rule="images of 10^2..2*10^5 elements (unrolled sizes per image 2^10 .. >2^20), unequal strides: single output elements of the implementation's whole convolution against `convElem` (= indexing the model's conv, C06_convat)"),
         ],
         "assumptions": [F64_NOTE],
     },
@@ -89,6 +90,7 @@ PROPS = {
             fam("reduce-float", g(gen.fam_reduce, mode="float"), 0, 0, mode="float", view="values", rule="as above with ln, exp, recip, sigmoid, softmax, real exponents"),
             fam("sizes", g(gen.fam_sizes, part="reduce"), 0, 0, view="values", rule="lengths 5..65 that are not small powers of two (loop remainders): sum(k) / sum_all over groups of awkward length, every exact element map"),
             fam("sizes-float", g(gen.fam_sizes, mode="float", part="reduce"), 0, 0, mode="float", view="values", rule="as above with exp, ln, recip, sigmoid, softmax rows of awkward length"),
+            fam("softmax-edges", g(gen.fam_scalar_edges, part="softmax"), 0, 0, mode="float", view="values", rule="softmax at magnitudes 1e-200..1e200 and batches of rows at very different levels (+-700, +-385, +-210, 30, 0): every row normalises on its own, row sums read back"),
         ],
         "assumptions": [F64_NOTE, "softmax rows sum to one only up to rounding in floats; the oracle compares with exp(x)/sum exp(x) under the float tolerance"],
     },
@@ -151,6 +153,7 @@ PROPS = {
         "families": [
             fam("cost", g(gen.fam_cost), 0, 0, view="values", rule="mse on every shape of rank<=3 (4 thorough) with a power-of-two element count"),
             fam("cost-float", g(gen.fam_cost, mode="float"), 0, 0, mode="float", view="values", rule="mse and cross-entropy on every shape of rank 1..4"),
+            fam("cost-edges", g(gen.fam_scalar_edges, part="cost"), 0, 0, mode="float", view="values", relative=True, rule="both costs on probabilities from 1e-300 to 1-1e-7 (far below the machine epsilon included), saturated softmax outputs under cross-entropy: values and gradients, relative comparison"),
             fam("forward", g(gen.fam_train, forward_only=True), 150, 4000, view="values", rule="distinct layer stacks evaluated layer by layer"),
             fam("forward-float", g(gen.fam_train, mode="float", forward_only=True), 100, 2500, mode="float", view="values", rule="all activations"),
             fam("train", g(gen.fam_train), 40, 1000, view="values", rule="loss values and model forward"),
@@ -160,7 +163,9 @@ PROPS = {
     },
     "C16": {
         "families": [fam("construct", gen.fam_construct, 80, 400,
-                         rule="distinct (shape) / (nesting) / (malformed input) keys; every in-range multi-index and flat index of each shape is read")],
+                         rule="distinct (shape) / (nesting) / (malformed input) keys; every in-range multi-index and flat index of each shape is read"),
+                     fam("special", g(gen.fam_special), 0, 0, mode="float", view="full+nf",
+                         rule="infinities, signed zeros, NaN, largest / smallest doubles at the first or last place: equality with a copy, a clone, a tracked clone, a view reshaped back, arrays differing at one place; flat reads (no arithmetic, so non-finite values are in scope)")],
         "assumptions": ["rank-0 arrays (empty dimension list) are outside the property's quantifier and are not generated", F64_NOTE],
     },
     "C17": {
@@ -192,6 +197,9 @@ PROPS = {
             fam("edges-f32-float", g(gen.fam_scalar_edges, mode="f32"), 0, 0, mode="f32", variant="f32", baseline_variant="f64", relative=True, rule="every scalar function at magnitudes 1e-30..1e30 (value and gradient), binary operations across magnitudes, costs on probabilities near 0 and 1: against Lean Float32"),
             fam("sizes-f32", g(gen.fam_sizes), 0, 0, variant="f32", baseline_variant="f64", rule="lengths 5..65 that are not small powers of two (loop remainders): every part, exact channel on the f32 build"),
             fam("sizes-grad-f32", g(gen.fam_sizes, grads=True), 0, 0, variant="f32", baseline_variant="f64", rule="as above with gradients"),
+            fam("optim-f32", g(gen.fam_optim), 30, 400, variant="f32", baseline_variant="f64", view="update", rule="the optimizer on the f32 build: frozen subsets, repeated updates, one optimizer object stepping different parameter lists of equal sizes in turn (exact channel)"),
+            fam("train-f32", g(gen.fam_train), 25, 400, variant="f32", baseline_variant="f64", view="values", rule="training loops on the f32 build (exact channel: small integers, power-of-two divisors)"),
+            fam("special-f32", g(gen.fam_special, mode="f32"), 0, 0, mode="f32", variant="f32", view="full+nf", rule="equality / reading of infinities, signed zeros, NaN, extreme f32 values"),
         ],
         "assumptions": ["the 'within single-precision rounding' half is validated by differential runs only (no IEEE rounding theory in Lean here): labelled partial",
                         "exact channel on the f32 build: integers below 2^24, where f32 arithmetic is exact"],
